@@ -22,15 +22,31 @@ Theorem C06_ring_stores_every_vertex_once :
 Proof. exact ring_structure. Qed.
 Print Assumptions C06_ring_stores_every_vertex_once.
 
+(* the structural facts the theorems below rest on, read off the source on every run: copy deep-copies in both branches
+   and also the connectivity, merge / from_arrays / prepare() / the five appending exporters copy each vector, translate
+   works on a private copy of its parameter *)
+Theorem C06_structure_of_the_code :
+  (forall attr : bool, (if attr then copy_mode_with_attributes else copy_mode_data_only) = Copy)
+  /\ copy_connectivity_mode = Copy
+  /\ eff merge_vertex_mode = Copy /\ eff from_arrays_mode = Copy /\ prepare_vertex_mode = Copy
+  /\ (forall p, (0 <= p <= 4)%Z -> append_mode p = Copy)
+  /\ translate_param_by_value = true.
+Proof.
+  exact (conj copy_is_deep (conj copy_connectivity_is_deep (conj merge_copies (conj from_arrays_copies
+        (conj prepare_copies (conj appenders_copy translate_by_value)))))).
+Qed.
+Print Assumptions C06_structure_of_the_code.
+
 (* copy (both branches): every container - elements and the element/owner tables of face_corners, cell_corners,
-   cell_faces - equal to its source, on buffers that did not exist before (so shared with nobody), nothing else touched *)
+   cell_faces - equal to its source; the attributes are the source's with copy_attributes=True and
+   none otherwise; on buffers that did not exist before (so shared with nobody), nothing else touched *)
 Theorem C06_copy :
   forall (T : Type) (O : ops T) (w w' : world (T:=T)) i attr,
     wf w -> step O w (OCopy i attr) = Some w' ->
     exists so co, get_mesh w i = Some so /\ wobjs w' = wobjs w ++ [co]
       /\ coords O (mheap (wmem w')) co = coords O (mheap (wmem w)) so
       /\ oedges co = oedges so /\ ofaces co = ofaces so /\ occells co = occells so /\ ocorn co = ocorn so
-      /\ okind co = okind so
+      /\ oattr co = (if attr then oattr so else []) /\ okind co = okind so
       /\ NoDup (ocells co) /\ (forall c, In c (ocells co) -> ~ allocated (wmem w) c)
       /\ frame O (wmem w) (wmem w').
 Proof. exact (fun T O => copy_spec O). Qed.
@@ -44,7 +60,7 @@ Theorem C06_merge :
     exists ins mo, get_meshes w ms = Some ins /\ wobjs w' = wobjs w ++ [mo]
       /\ coords O (mheap (wmem w')) mo = flat_map (coords O (mheap (wmem w))) ins
       /\ oedges mo = shifted sel_edges 0 ins /\ ofaces mo = shifted sel_faces 0 ins /\ occells mo = shifted sel_cells 0 ins
-      /\ ocorn mo = merge_corn 0 0 0 ins /\ okind mo = max_dim ins
+      /\ ocorn mo = merge_corn 0 0 0 ins /\ oattr mo = [] /\ okind mo = max_dim ins
       /\ NoDup (ocells mo) /\ (forall c, In c (ocells mo) -> ~ allocated (wmem w) c)
       /\ frame O (wmem w) (wmem w').
 Proof. exact (fun T O => merge_spec O). Qed.
@@ -73,10 +89,12 @@ Theorem C06_new_object_isolated :
 Proof. exact (fun T O => fresh_object_isolated O). Qed.
 Print Assumptions C06_new_object_isolated.
 
-(* distinct objects never share a vertex buffer: invariant of every history in which the producers that bypass
-   RawMeshData.prepare() (caller arrays, PointCloud.append, extract_boundary_of_surface) store new vectors - everything
-   built through prepare() (procedural generators, loaders, subdivision, volume boundary), copy, merge, from_arrays, ring
-   gets buffers of its own by the regenerated model *)
+(* distinct objects never share a vertex buffer: invariant of every history. Everything the LIBRARY builds gets buffers of
+   its own by the regenerated model: results built through RawMeshData.prepare() (procedural generators, loaders,
+   subdivision, volume boundary, cut graph, feature graph, corner point cloud, singularity graph), the exporters that append
+   to a PolyLine() directly (extract_boundary_of_surface, build_path, Edge/Face/CellSpanningTree.build_tree_as_polyline;
+   Gen.append_mode), copy, merge, from_arrays, ring. The only hypothesis left (fresh_hist) is about USER code: the caller's
+   own numpy arrays and vectors handed to PointCloud.append are new vectors. *)
 Theorem C06_distinct_objects_share_no_buffer :
   forall (T : Type) (O : ops T) (l : list (op (T:=T))) (w w' : world (T:=T)),
     wf w -> sep w -> fresh_hist O w l -> run O w l = Some w' -> wf w' /\ sep w'.
@@ -140,7 +158,7 @@ Theorem C06_inverses :
 Proof. exact (fun T O => inverses_restore O). Qed.
 Print Assumptions C06_inverses.
 
-(* normalize: box centred at 0 with largest extent 2, or anchored at 0 with largest extent 1; a step exists as soon as the
+(* normalize / fit_into_unit_cube: box centred at 0 with largest extent 2, or anchored at 0 with largest extent 1; a step exists as soon as the
    mesh has a vertex and its largest extent is positive (otherwise the model returns the error value None) *)
 Theorem C06_normalize_box :
   forall (T : Type) (O : ops T), field_laws O -> order_laws O ->
@@ -148,7 +166,7 @@ Theorem C06_normalize_box :
   (step O w (ONormalize i true) = Some w' ->
      exists lo hi, bbox O (obj_coords O w' i) = Some (lo, hi)
        /\ aabb_center O lo hi = vzero O /\ vmax3 O (aabb_span O lo hi) = add O (o1 O) (o1 O))
-  /\ (step O w (ONormalize i false) = Some w' ->
+  /\ (step O w (ONormalize i false) = Some w' \/ step O w (OFit i) = Some w' ->
      exists lo hi, bbox O (obj_coords O w' i) = Some (lo, hi)
        /\ lo = vzero O /\ vmax3 O (aabb_span O lo hi) = o1 O)
   /\ (forall so lo hi c, get_mesh w i = Some so -> bbox O (coords O (mheap (wmem w)) so) = Some (lo, hi) ->
